@@ -64,17 +64,18 @@ Cfgs == JsonDeserialize(IOEnv.CFGS)
 Particles == {0, 1, 2}
 
 VARIABLES phase,  \* "pick" | "pre" | "limited" | "along" | "selected" | "done" | "bad"
-          who,    \* [ci, pt, mat]
-          trk,    \* [e, mfp, pp, tot, step, act, alive, len, forced, e0]
-          sel,    \* result of the last selection
+          who,    \* [c (configuration id), pt, mat]
+          P,      \* the projection Proj(cfg, pt, mat), constant along a behaviour
+          trk,    \* [e, mfp, alive] + scratch of the current step [pp, tot, step, act, len, forced, e0]
+          sel,    \* result of the selection (while phase is "selected" / "bad")
           snap,   \* ghost: the track at the selection
-          led,    \* ghost: [s (sampled), u (used)]
+          due,    \* ghost: sampled MFP - sum(step * total) since
           nstep
-vars == <<phase, who, trk, sel, snap, led, nstep>>
+vars == <<phase, who, P, trk, sel, snap, due, nstep>>
 
-Cfg == Cfgs[who.ci]
 OddUpTo(e) == {x \in 3..e : x % 2 = 1}
 TrackEnergies(cfg, pt) == OddUpTo(2 * cfg.nl + 1) \cup (IF ElossP(cfg, pt) # 0 THEN {0} ELSE {})
+HasEloss == P.elossp # 0
 
 \* ---- seeded variants of the decision points
 VCumEx(DD, a, c, tot) == IF Variant = "sel_ge" THEN (IF a = DD THEN c >= tot ELSE DD * c >= a * tot)
@@ -87,49 +88,48 @@ VFind(rs, e) ==
   ELSE FindModel(rs, e)
 VRej(integ, DD, a, smax, xs1) ==
   CASE Variant = "rej_all" -> GtU(DD, a, smax, xs1)
-    [] Variant = "rej_flip" -> integ /\ (IF a = DD THEN smax <= xs1 /\ smax < xs1 ELSE a * smax < DD * xs1)
+    [] Variant = "rej_flip" -> integ /\ (IF a = DD THEN smax < xs1 ELSE a * smax < DD * xs1)
     [] OTHER -> RejectTest(integ, DD, a, smax, xs1)
-VSelect(e1, a1, a2, a3) ==
-  SelectWith(Cfg, D, who.pt, who.mat, trk.pp, trk.tot, e1, a1, a2, a3, VCumEx, VFind, VRej)
+VSelect(e1, a1, a2, a3) == SelectWith(P, D, trk.pp, trk.tot, e1, a1, a2, a3, VCumEx, VFind, VRej)
 VLimit(e, m, tot) ==
-  LET l == StepLimit(Cfg, who.pt, who.mat, e, m, tot) IN
-  IF Variant = "fixed_le" /\ ElossP(Cfg, who.pt) # 0 /\ e # 0 /\ Cfg.fixed > 0 /\ l.act # ActFixed
-     /\ EqQ(Rat(Cfg.fixed, 1), l.step)
+  LET l == StepLimit(P, e, m, tot) IN
+  IF Variant = "fixed_le" /\ HasEloss /\ e # 0 /\ P.fixed > 0 /\ l.act # ActFixed /\ EqQ(Rat(P.fixed, 1), l.step)
   THEN [l EXCEPT !.act = ActFixed]
   ELSE IF Variant = "disc_late" /\ l.act = ActDiscrete /\ e # 0 /\ tot > 0
   THEN [l EXCEPT !.step = Rat(m + 1, tot)]
   ELSE l
-VAlong(t, len, act) ==
-  IF Variant = "dec_never" THEN t ELSE AlongUpdate(t, len, act)
+VAlong(t, len, act) == IF Variant = "dec_never" THEN t ELSE AlongUpdate(t, len, act)
 
-NoTrk == [e |-> 0, mfp |-> 0, pp |-> <<>>, tot |-> 0, step |-> Inf, act |-> ActNone, alive |-> FALSE,
-          len |-> 0, forced |-> FALSE, e0 |-> 0]
+NoScratch == [pp |-> <<>>, tot |-> 0, step |-> Inf, act |-> ActNone, len |-> 0, forced |-> FALSE, e0 |-> 0]
+NoTrk == [e |-> 0, mfp |-> 0, alive |-> FALSE] @@ NoScratch
+Clear(t) == [e |-> t.e, mfp |-> t.mfp, alive |-> t.alive] @@ NoScratch
 NoSel == [n |-> 0, proc |-> 0, integral |-> FALSE, xs1 |-> 0, reject |-> FALSE, model |-> 0, act |-> ActNone,
           el |-> -1, draws |-> 0, e1 |-> 0, a2 |-> 0]
+NoP == [np |-> 0]
 
-Init == /\ phase = "pick" /\ who = [ci |-> 0, pt |-> 0, mat |-> 0] /\ trk = NoTrk /\ sel = NoSel
-        /\ snap = NoTrk /\ led = [s |-> 0, u |-> 0] /\ nstep = 0
-
-\* total cross section a stopped particle of this kind would see
-TotAtRest(cfg, pt, mat) == SumSeq(PerProcessXs(cfg, pt, mat, 0))
+Init == /\ phase = "pick" /\ who = [c |-> 0, pt |-> 0, mat |-> 0] /\ P = NoP /\ trk = NoTrk /\ sel = NoSel
+        /\ snap = NoTrk /\ due = 0 /\ nstep = 0
 
 Pick ==
   /\ phase = "pick"
   /\ \E ci \in DOMAIN Cfgs, pt \in Particles, mat \in Materials :
-       LET cfg == Cfgs[ci] IN
+       LET cfg == Cfgs[ci]
+           pj == Proj(cfg, pt, mat)
+       IN
        /\ Buildable(cfg, Particles)
        /\ Assert(WellFormed(cfg, Particles), <<"configuration not well formed", cfg.id>>)
        /\ Assert(XsWithinModels(cfg, pt, TrackEnergies(cfg, pt)), <<"XsWithinModels fails", cfg.id, pt>>)
        /\ \E e0 \in OddUpTo(2 * cfg.nl + 1)
-                    \cup (IF ElossP(cfg, pt) # 0 /\ AtRest(cfg, pt) /\ TotAtRest(cfg, pt, mat) > 0 THEN {0} ELSE {}) :
-            /\ who' = [ci |-> ci, pt |-> pt, mat |-> mat]
+                    \cup (IF pj.elossp # 0 /\ pj.atrest /\ SumSeq(PerProcessXs(pj, 0)) > 0 THEN {0} ELSE {}) :
+            /\ who' = [c |-> cfg.id, pt |-> pt, mat |-> mat]
+            /\ P' = pj
             \* the state is poisoned before the initializer runs
-            /\ trk' = InitTrack([NoTrk EXCEPT !.e = e0, !.mfp = 7, !.alive = TRUE, !.e0 = e0])
-  /\ phase' = "pre" /\ UNCHANGED <<sel, snap, led, nstep>>
+            /\ trk' = InitTrack([NoTrk EXCEPT !.e = e0, !.mfp = 7, !.alive = TRUE])
+  /\ phase' = "pre" /\ UNCHANGED <<sel, snap, due, nstep>>
 
 PreStep ==
   /\ phase = "pre" /\ trk.alive /\ nstep < MaxSteps
-  /\ LET pp == PerProcessXs(Cfg, who.pt, who.mat, trk.e)
+  /\ LET pp == PerProcessXs(P, trk.e)
          tot == SumSeq(pp)
      IN /\ (trk.e = 0 => tot > 0)
         /\ \E m \in IF HasMfp(trk) THEN {trk.mfp}
@@ -138,63 +138,75 @@ PreStep ==
              LET lim == VLimit(trk.e, m, tot) IN
              /\ trk' = [SetMfp(trk, m) EXCEPT !.pp = pp, !.tot = tot, !.step = lim.step, !.act = lim.act,
                                               !.len = 0, !.forced = FALSE, !.e0 = trk.e]
-             /\ led' = IF HasMfp(trk) THEN led ELSE [s |-> m, u |-> 0]
-  /\ phase' = "limited" /\ UNCHANGED <<who, sel, snap, nstep>>
+             /\ due' = IF HasMfp(trk) THEN due ELSE m
+  /\ phase' = "limited" /\ UNCHANGED <<who, P, sel, snap, nstep>>
 
 IsInt(q) == q.d # 0 /\ q.n % q.d = 0
-HasEloss == ElossP(Cfg, who.pt) # 0
+PostEnergies == IF HasEloss THEN OddUpTo(trk.e) ELSE {trk.e}
+
+\* t = the track after TrackUpdater; going on to the next pre-step forgets the scratch
+Continue(t) == /\ trk' = Clear(t) /\ phase' = "pre"
 
 Along ==
   /\ phase = "limited"
   /\ \/ \* a particle at rest does not move
         /\ trk.e = 0
-        /\ trk' = [trk EXCEPT !.len = 0]
-        /\ phase' = "along"
-     \/ \* the full step
-        /\ trk.e # 0 /\ trk.step.d # 0 /\ (trk.act # ActDiscrete => IsInt(trk.step))
-        /\ \E e1 \in IF HasEloss THEN OddUpTo(trk.e) ELSE {trk.e} :
-             /\ trk' = [VAlong(trk, trk.step.n \div trk.step.d, trk.act) EXCEPT !.e = e1,
-                           !.len = IF IsInt(trk.step) THEN trk.step.n \div trk.step.d ELSE -1]
-             /\ phase' = IF trk.act = ActDiscrete THEN "along" ELSE "pre"
+        /\ trk' = trk /\ phase' = "along" /\ due' = due
+     \/ \* the full step is the distance to the interaction
+        /\ trk.e # 0 /\ trk.step.d # 0 /\ trk.act = ActDiscrete
+        /\ \E e1 \in PostEnergies :
+             trk' = [VAlong(trk, 0, ActDiscrete) EXCEPT !.e = e1]
+        /\ phase' = "along" /\ due' = due
+     \/ \* the full step is limited by the range or the fixed limiter
+        /\ trk.e # 0 /\ trk.act \in {ActRange, ActFixed}
+        /\ LET len == trk.step.n \div trk.step.d IN
+           /\ \E e1 \in PostEnergies : Continue([VAlong(trk, len, trk.act) EXCEPT !.e = e1])
+           /\ due' = due - len * trk.tot
      \/ \* the end of the range: the particle stops
         /\ trk.e # 0 /\ trk.act = ActRange
-        /\ (AtRest(Cfg, who.pt) => trk.tot > 0)
+        /\ (P.atrest => trk.tot > 0)
         /\ LET len == trk.step.n \div trk.step.d IN
-           IF AtRest(Cfg, who.pt)
+           IF P.atrest
            THEN /\ trk' = [VAlong(trk, len, ActDiscrete) EXCEPT !.e = 0, !.act = ActDiscrete, !.forced = TRUE,
                                                                !.len = len]
-                /\ phase' = "along"
-           ELSE /\ trk' = [VAlong(trk, len, ActRange) EXCEPT !.e = 0, !.alive = FALSE, !.len = len]
-                /\ phase' = "done"
+                /\ phase' = "along" /\ due' = due
+           ELSE /\ trk' = Clear([trk EXCEPT !.e = 0, !.alive = FALSE, !.mfp = 0])
+                /\ phase' = "done" /\ due' = 0
      \/ \* a shorter step (geometry boundary)
         /\ trk.e # 0
         /\ \E len \in {x \in 1..3 : LtQ(Rat(x, 1), trk.step)} :
-           \E e1 \in IF HasEloss THEN OddUpTo(trk.e) ELSE {trk.e} :
-             /\ trk' = [VAlong(trk, len, "geo-boundary") EXCEPT !.e = e1, !.act = "geo-boundary", !.len = len]
-             /\ phase' = "pre"
-  /\ led' = IF trk'.act = ActDiscrete THEN led
-            ELSE [led EXCEPT !.u = @ + trk'.len * trk.tot]
-  /\ nstep' = nstep + 1 /\ UNCHANGED <<who, sel, snap>>
+             /\ \E e1 \in PostEnergies : Continue([VAlong(trk, len, "geo-boundary") EXCEPT !.e = e1])
+             /\ due' = due - len * trk.tot
+  /\ nstep' = nstep + 1 /\ UNCHANGED <<who, P, sel, snap>>
+
+ElSet == {0, 2, D \div 2, D - 1, D}
+\* the uniforms that matter, in the order drawn (the others are fixed to 0)
+A2Set(s0) == IF s0.integral \/ Variant = "rej_all" THEN 0..D
+             ELSE IF s0.draws > 1 THEN ElSet ELSE {0}
+A3Set(s1) == IF s1.integral /\ s1.draws > 2 THEN ElSet ELSE {0}
 
 SelectStep ==
   /\ phase = "along" /\ trk.alive /\ trk.act = ActDiscrete
-  /\ \E a1 \in 0..D, a2 \in 0..D, a3 \in 0..D :
-       LET s == VSelect(trk.e, a1, a2, a3) IN
-       /\ sel' = [s EXCEPT !.draws = s.draws] @@ [e1 |-> trk.e, a2 |-> a2]
-       /\ phase' = IF ~s.reject /\ s.model = 0 THEN "bad" ELSE "selected"
+  /\ \E a1 \in 0..D :
+       \E a2 \in A2Set(VSelect(trk.e, a1, 0, 0)) :
+          \E a3 \in A3Set(VSelect(trk.e, a1, a2, 0)) :
+             LET s == VSelect(trk.e, a1, a2, a3) IN
+             /\ sel' = s @@ [e1 |-> trk.e, a2 |-> a2]
+             /\ phase' = IF ~s.reject /\ s.model = 0 THEN "bad" ELSE "selected"
   /\ snap' = trk
   /\ trk' = ResetMfp(trk)
-  /\ UNCHANGED <<who, led, nstep>>
+  /\ due' = 0
+  /\ UNCHANGED <<who, P, nstep>>
 
 Post ==
   /\ phase = "selected"
   /\ IF sel.reject
-     THEN trk' = trk /\ phase' = "pre"
-     ELSE \/ trk' = [trk EXCEPT !.alive = FALSE] /\ phase' = "done"
+     THEN Continue(trk)
+     ELSE \/ trk' = Clear([trk EXCEPT !.alive = FALSE]) /\ phase' = "done"
           \/ /\ trk.e # 0
-             /\ \E e2 \in OddUpTo(trk.e) : trk' = [trk EXCEPT !.e = e2]
-             /\ phase' = "pre"
-  /\ UNCHANGED <<who, sel, snap, led, nstep>>
+             /\ \E e2 \in OddUpTo(trk.e) : Continue([trk EXCEPT !.e = e2])
+  /\ sel' = NoSel /\ snap' = NoTrk
+  /\ UNCHANGED <<who, P, due, nstep>>
 
 Next == Pick \/ PreStep \/ Along \/ SelectStep \/ Post
 Spec == Init /\ [][Next]_vars
@@ -208,7 +220,7 @@ MfpNonNegative ==
   /\ trk.mfp >= 0
   /\ phase = "limited" => trk.mfp > 0
 
-Ledger == (phase \in {"pre", "limited"} /\ trk.mfp > 0 /\ trk.alive) => trk.mfp = led.s - led.u
+Ledger == (phase \in {"pre", "limited", "along"} /\ trk.alive /\ trk.mfp > 0) => trk.mfp = due
 
 \* at the selection: the step used up exactly the MFP that was left, or the particle stopped
 DiscreteWhenDue ==
@@ -220,24 +232,21 @@ DiscreteWhenDue ==
 StepIsMinimum ==
   phase = "limited" =>
     LET disc == IF trk.tot = 0 THEN Inf ELSE Rat(trk.mfp, trk.tot)
-        ep == ElossP(Cfg, who.pt)
-        rng == IF ep = 0 THEN Inf
-               ELSE Rat(CalcXs(RangeTab(Cfg, ProcsOf(Cfg, who.pt)[ep], who.pt, who.mat), trk.e), 1)
-        fix == IF ep = 0 \/ Cfg.fixed = 0 THEN Inf ELSE Rat(Cfg.fixed, 1)
+        rng == IF ~HasEloss THEN Inf ELSE Rat(CalcXs(P.range, trk.e), 1)
+        fix == IF ~HasEloss \/ P.fixed = 0 THEN Inf ELSE Rat(P.fixed, 1)
     IN IF trk.e = 0 THEN trk.step.n = 0 /\ trk.act = ActDiscrete
        ELSE /\ LeQ(trk.step, disc) /\ LeQ(trk.step, rng) /\ LeQ(trk.step, fix)
-            /\ CASE trk.act = ActDiscrete -> EqQ(trk.step, disc) /\ (ep = 0 \/ LtQ(disc, rng)) /\ LeQ(disc, fix)
+            /\ CASE trk.act = ActDiscrete -> EqQ(trk.step, disc) /\ (~HasEloss \/ LtQ(disc, rng)) /\ LeQ(disc, fix)
                  [] trk.act = ActRange -> EqQ(trk.step, rng) /\ LeQ(rng, disc) /\ LeQ(rng, fix)
                  [] trk.act = ActFixed -> EqQ(trk.step, fix) /\ LtQ(fix, disc) /\ LtQ(fix, rng)
-                 [] trk.act = ActNone -> Len(trk.pp) = 0 /\ trk.step.d = 0
+                 [] trk.act = ActNone -> P.np = 0 /\ trk.step.d = 0
                  [] OTHER -> FALSE
 
 AtSelection == phase \in {"selected", "bad"}
 SelectedHasXsInv == AtSelection => SelectedHasXs(snap.pp, sel)
-ModelContainsE == AtSelection => ModelContains(Cfg, who.pt, sel, sel.e1)
+ModelContainsE == AtSelection => ModelContains(P, sel, sel.e1)
 RejectOnlyAllowed == AtSelection => RejectAllowed(snap.pp, sel)
-RejectLeavesTrack ==
-  (phase = "selected" /\ sel.reject) => trk = ResetMfp(snap)
+RejectLeavesTrack == (phase = "selected" /\ sel.reject) => trk = ResetMfp(snap)
 NoModelOnlyAtEdge ==
   phase = "bad" =>
      \/ (~sel.integral /\ sel.e1 < snap.e0)
@@ -247,17 +256,17 @@ NoModelOnlyAtEdge ==
 \* every selection input whose decision the real code can be asked for (a model exists)
 SelInputs ==
   LET e1s == IF trk.e = 0 THEN {0}
-             ELSE (IF trk.act = ActDiscrete /\ trk.tot > 0
-                   THEN (IF HasEloss THEN OddUpTo(trk.e) ELSE {trk.e}) ELSE {})
-                  \cup (IF trk.act = ActRange /\ AtRest(Cfg, who.pt) /\ trk.tot > 0 THEN {0} ELSE {})
-  IN {<<e1, a1, a2, a3>> \in e1s \X (0..D) \X (0..D) \X {0, 2, D \div 2, D - 1, D} :
-        LET s0 == Select(Cfg, D, who.pt, who.mat, trk.pp, trk.tot, e1, a1, 0, 0)
-            s == Select(Cfg, D, who.pt, who.mat, trk.pp, trk.tot, e1, a1, a2, a3)
-        IN /\ (s0.integral \/ a2 = 0)                       \* a2 matters only for an integral process
-           /\ (s.draws = 1 + (IF s.integral THEN 1 ELSE 0) => a3 = 0)   \* a3 only when an element is sampled
-           /\ (s.reject \/ s.model # 0)}
+             ELSE (IF trk.act = ActDiscrete /\ trk.tot > 0 THEN PostEnergies ELSE {})
+                  \cup (IF trk.act = ActRange /\ P.atrest /\ trk.tot > 0 THEN {0} ELSE {})
+  IN UNION {
+       UNION {
+          LET s1 == Select(P, D, trk.pp, trk.tot, e1, a1, a2, 0) IN
+          IF ~s1.reject /\ s1.model = 0 THEN {}
+          ELSE {<<e1, a1, a2, a3>> : a3 \in A3Set(s1)}
+          : a2 \in A2Set(Select(P, D, trk.pp, trk.tot, e1, a1, 0, 0))}
+       : <<e1, a1>> \in e1s \X (0..D)}
 Emit ==
   (EmitScenarios /\ phase = "limited" /\ nstep = 0 /\ (trk.tot = 0 \/ trk.mfp % trk.tot = 0)) =>
-     PrintT(<<"SCEN", ToJson([c |-> Cfg.id, pt |-> who.pt, mat |-> who.mat, e0 |-> trk.e, m |-> trk.mfp,
+     PrintT(<<"SCEN", ToJson([c |-> who.c, pt |-> who.pt, mat |-> who.mat, e0 |-> trk.e, m |-> trk.mfp,
                               sel |-> SetToSeq(SelInputs)])>>)
 =============================================================================
